@@ -2158,7 +2158,7 @@ func genTrans(repo, outDir string) error {
 	var sb strings.Builder
 	sb.WriteString("-- REGENERATED by /verif/tools/extract (translate.go) from /repo on every check run. Do not edit.\n")
 	sb.WriteString("-- Go → Lean translation of the whitelisted functions; subset and semantics: tools/extract/translate.go.\n")
-	sb.WriteString("import Corerad.Basic\nimport Corerad.Model.Config\nimport Corerad.Model.ListUtil\nimport Corerad.Model.RA\nimport Corerad.Model.Handle\nimport Corerad.Model.Monitor\n\n")
+	sb.WriteString("import Corerad.Basic\nimport Corerad.Model.Config\nimport Corerad.Model.ListUtil\nimport Corerad.Model.RA\nimport Corerad.Model.Handle\nimport Corerad.Model.Monitor\nimport Corerad.Model.Verify\n\n")
 	sb.WriteString("set_option linter.unusedVariables false\n\nnamespace Corerad.Gen.Trans\n\nopen Corerad\n\n")
 	defer func() { curTag = "" }()
 	for _, spec := range whitelist {
@@ -2282,6 +2282,23 @@ func genTrans(repo, outDir string) error {
 	} else {
 		sb.WriteString(d.text + "\n\n")
 		facts["TransC18.Monitor_handle"] = d.text
+	}
+	// the straight-line and nested-range checks of verify.go (translate_verify.go)
+	curTag = "TransC12"
+	if p, err := loadPkg(repo, "internal/corerad"); err != nil {
+		failf("translate: verify.go: %v", err)
+	} else {
+		for _, name := range []string{"checkRAs", "checkMTUs", "checkCaptivePortal", "checkPrefixes", "checkRoutes"} {
+			d, err := translateVerifyFunc(p, name)
+			if err != nil {
+				failf("%s", err)
+				sb.WriteString("-- NOT TRANSLATED: " + docSafe(err.Error()) + "\n\n")
+				facts["TransC12."+name] = "NOT TRANSLATED: " + err.Error()
+				continue
+			}
+			sb.WriteString(d.text + "\n\n")
+			facts["TransC12."+name] = d.text
+		}
 	}
 	// the lifetime computed by NewPREF64 (translate_synth.go)
 	curTag = "TransC01"
